@@ -147,7 +147,15 @@ func checkC19(c *Ctx) {
 			}
 		}
 		tc.Args = args
-		r := Run(Cmd{Dir: src, Env: box.Env(tc.Env...), Argv: garbleArgv(g, cfg, tc.Command, tc.Args...), Stdin: stdin, Timeout: 20 * time.Minute})
+		argv := garbleArgv(g, cfg, tc.Command, tc.Args...)
+		// Hook-free cross-check: selected cases (all in the thorough tier) run under strace and every
+		// successful create/write-open/rename/unlink/mkdir/chmod must stay inside the allowed roots.
+		straced := !c.Quick() || tc.Name == "build-ok" || tc.Name == "test-ok" || tc.Name == "reverse-ok" || tc.Name == "map-ok" || tc.Name == "build-type-error" || tc.Name == "debugdir-foreign-files"
+		straceLog := filepath.Join(root, "strace.log")
+		if straced {
+			argv = straceArgv(straceLog, argv)
+		}
+		r := Run(Cmd{Dir: src, Env: box.Env(tc.Env...), Argv: argv, Stdin: stdin, Timeout: 30 * time.Minute})
 		if r.TimedOut {
 			c.Inconclusive("watchdog fired for " + tc.Name)
 			return
@@ -167,6 +175,29 @@ func checkC19(c *Ctx) {
 		files := map[string]string{"case.json": jsonStr(tc), "output.txt": r.String()}
 		for name, content := range c19Program(tc.Outcome) {
 			files["src/"+name] = content
+		}
+		if straced {
+			muts, total := parseStraceMutations(straceLog, src)
+			c.Count("strace.syscalls_seen", total)
+			c.Count("strace.mutations_checked", len(muts))
+			if total == 0 {
+				c.Inconclusive("strace recorded nothing for " + tc.Name)
+			}
+			roots := []string{tmp, box.GoCache, box.GarbleCache, filepath.Join(root, "out.bin"), "/dev/null", "/dev/tty", "/proc", "/root/.config/go/telemetry", root + "/strace.log"}
+			if tc.Name == "build-ok-in-tree-output" {
+				roots = append(roots, filepath.Join(src, "zqoutput.bin"))
+			}
+			bad := outsideRoots(muts, roots)
+			if len(bad) > 0 {
+				var desc []string
+				for i, b := range bad {
+					if i < 5 {
+						desc = append(desc, b.Line)
+					}
+				}
+				files["strace-violations.txt"] = strings.Join(desc, "\n") + "\n"
+				c.Violate("mutation-outside-own-files/"+tc.Command, fmt.Sprintf("garble %s (%s): %d file-system mutations outside TMPDIR, the caches and the requested output, e.g. %s", tc.Command, tc.Name, len(bad), clip([]byte(bad[0].Line), 300)), files)
+			}
 		}
 		after := snapshotTree(filepath.Join(root, "tree"))
 		diffs := diffSnap(before, after)
